@@ -33,7 +33,7 @@ func init() {
 			{Name: "for-post-not-walked", File: "x/format/stmt_expr_or_type.go", Old: "\tformatSimpleStmt(ctx, v.Post)\n", New: "", Expect: "format-walk-field/ForStmt.Post"},
 			{Name: "if-init-in-command-style", File: "x/format/stmt_expr_or_type.go", Old: "\tformatSimpleStmt(ctx, v.Init)\n\tformatExpr(ctx, v.Cond, &v.Cond)\n\tformatBlockStmt(ctx, v.Body)\n\tformatStmt(ctx, v.Else)", New: "\tformatStmt(ctx, v.Init)\n\tformatExpr(ctx, v.Cond, &v.Cond)\n\tformatBlockStmt(ctx, v.Body)\n\tformatStmt(ctx, v.Else)", Expect: "header-call-style/formatIfStmt.Init"},
 			{Name: "scope-reused", File: g, Old: "\told := ctx.scope\n\tctx.scope = types.NewScope(old, token.NoPos, token.NoPos, \"\")\n\treturn old", New: "\told := ctx.scope\n\tif old.Parent() != nil && old.Len() == 0 {\n\t\treturn old\n\t}\n\tctx.scope = types.NewScope(old, token.NoPos, token.NoPos, \"\")\n\treturn old", Expect: "scope-discipline/enterBlock"},
-			{Name: "leave-not-deferred", File: "x/format/stmt_expr_or_type.go", Old: "\told := ctx.enterBlock()\n\tdefer ctx.leaveBlock(old)\n\tif stmt.Init != nil {", New: "\tctx.enterBlock()\n\tif stmt.Init != nil {", Expect: "scope-discipline/pairing"},
+			{Name: "leave-not-deferred", File: "x/format/stmt_expr_or_type.go", Old: "\t\told := ctx.enterBlock()\n\t\tdefer ctx.leaveBlock(old)\n\t\tformatStmts(ctx, stmt.List)\n", New: "\t\tctx.enterBlock()\n\t\tformatStmts(ctx, stmt.List)\n", Expect: "scope-discipline/pairing"},
 		},
 	})
 }
